@@ -242,7 +242,8 @@ fn admitted2(text: &str, kind: &str) -> Result<bool, String> {
 
 pub enum Class {
     Ok(String),
-    Reject(String),
+    /// first message, and the complete rendering of the diagnostic(s) as the macro would emit them
+    Reject(String, String),
     ConfigReject(String),
     Panic(String),
     BadOutput(String),
@@ -265,7 +266,7 @@ pub fn expand(text: &str, cfg: &str) -> Class {
     let parsed = catch_unwind(AssertUnwindSafe(|| syn::parse_str::<JoinInputDefault>(text)));
     let j = match parsed {
         Err(e) => return Class::Panic(format!("parser: {}", panic_text(e))),
-        Ok(Err(e)) => return Class::Reject(e.to_string()),
+        Ok(Err(e)) => return Class::Reject(e.to_string(), e.to_compile_error().to_string()),
         Ok(Ok(j)) => j,
     };
     match catch_unwind(AssertUnwindSafe(|| generate_join(&j, cfg_of(cfg)))) {
@@ -356,6 +357,35 @@ impl Report {
     }
 }
 
+/// `__g!( tokens )` -> a None-delimited group around `tokens` (what a `$e:expr` / `$t:ty` fragment of a user
+/// macro_rules looks like to a proc macro), recursively.
+fn regroup(ts: TokenStream) -> TokenStream {
+    let v: Vec<TokenTree> = ts.into_iter().collect();
+    let mut out: Vec<TokenTree> = Vec::new();
+    let mut i = 0;
+    while i < v.len() {
+        if i + 2 < v.len() {
+            if let (TokenTree::Ident(id), TokenTree::Punct(p), TokenTree::Group(g)) = (&v[i], &v[i + 1], &v[i + 2]) {
+                if id == "__g" && p.as_char() == '!' && g.delimiter() == Delimiter::Parenthesis {
+                    out.push(TokenTree::Group(proc_macro2::Group::new(Delimiter::None, regroup(g.stream()))));
+                    i += 3;
+                    continue;
+                }
+            }
+        }
+        match &v[i] {
+            TokenTree::Group(g) => {
+                let mut ng = proc_macro2::Group::new(g.delimiter(), regroup(g.stream()));
+                ng.set_span(g.span());
+                out.push(TokenTree::Group(ng));
+            }
+            t => out.push(t.clone()),
+        }
+        i += 1;
+    }
+    out.into_iter().collect()
+}
+
 fn read_cases(path: &str) -> Vec<Vec<String>> {
     std::fs::read_to_string(path).expect("read cases").lines().filter(|l| !l.is_empty()).map(|l| l.split('\t').map(unesc).collect()).collect()
 }
@@ -415,9 +445,19 @@ pub fn main() {
             for c in read_cases(&inp) {
                 rep.cases += 1;
                 let (id, text, want) = (&c[0], &c[1], &c[2]);
-                match catch_unwind(AssertUnwindSafe(|| syn::parse_str::<JoinInputDefault>(text))) {
+                let grouped = id.starts_with('G');
+                if grouped {
+                    rep.bump("operands_as_none_delimited_groups");
+                }
+                match catch_unwind(AssertUnwindSafe(|| {
+                    if grouped {
+                        syn::parse2::<JoinInputDefault>(regroup(text.parse::<TokenStream>().expect("case lexes")))
+                    } else {
+                        syn::parse_str::<JoinInputDefault>(text)
+                    }
+                })) {
                     Err(e) => rep.viol(id, text, "", format!("parser panicked: {}", panic_text(e))),
-                    Ok(Err(e)) => rep.viol(id, text, "", format!("a valid structure was rejected: {}", e)),
+                    Ok(Err(e)) => rep.viol(id, text, "", format!("a valid structure was rejected{}: {}", if grouped { " when its operands are None-delimited groups (macro_rules fragments)" } else { "" }, e)),
                     Ok(Ok(j)) => {
                         let got = canon(&j);
                         if &got != want {
@@ -495,7 +535,7 @@ pub fn main() {
                                     rep.viol(id, text, cfg, format!("structurally invalid input ({}) was accepted silently; output starts: {}", &label[2..], s.chars().take(160).collect::<String>()));
                                 }
                             }
-                            Class::Reject(m) => {
+                            Class::Reject(m, _) => {
                                 rep.bump("outcome_rejected_with_message");
                                 if label.starts_with("I:") {
                                     rep.bump(&format!("rejected:{}", &label[2..]));
@@ -540,7 +580,7 @@ pub fn main() {
             let render = |c: &Vec<String>| -> String {
                 match expand(&c[2], &c[1]) {
                     Class::Ok(s) => format!("ok:{}", s),
-                    Class::Reject(m) => format!("reject:{}", m),
+                    Class::Reject(_, full) => format!("reject:{}", full),
                     Class::ConfigReject(m) => format!("cfgreject:{}", m),
                     Class::Panic(m) => format!("panic:{}", m),
                     Class::BadOutput(m) => format!("bad:{}", m),
@@ -590,7 +630,7 @@ pub fn main() {
                             let c = &cases_a[i];
                             let s = match expand(&c[2], &c[1]) {
                                 Class::Ok(s) => format!("ok:{}", s),
-                                Class::Reject(m) => format!("reject:{}", m),
+                                Class::Reject(_, full) => format!("reject:{}", full),
                                 Class::ConfigReject(m) => format!("cfgreject:{}", m),
                                 Class::Panic(m) => format!("panic:{}", m),
                                 Class::BadOutput(m) => format!("bad:{}", m),
@@ -628,7 +668,7 @@ pub fn main() {
             for c in &cases {
                 let s = match expand(&c[2], &c[1]) {
                     Class::Ok(s) => format!("ok:{}", s),
-                    Class::Reject(m) => format!("reject:{}", m),
+                    Class::Reject(_, full) => format!("reject:{}", full),
                     Class::ConfigReject(m) => format!("cfgreject:{}", m),
                     Class::Panic(m) => format!("panic:{}", m),
                     Class::BadOutput(m) => format!("bad:{}", m),
@@ -701,7 +741,7 @@ pub fn main() {
                 let (g, cfg, text) = (&c[0], &c[1], &c[2]);
                 let s = match expand(text, cfg) {
                     Class::Ok(s) => s,
-                    Class::Reject(m) => {
+                    Class::Reject(m, _) => {
                         rep.viol(g, text, cfg, format!("a legal option order/subset was rejected: {}", m));
                         continue;
                     }
